@@ -12,6 +12,8 @@ TRUSTED = ("Trusted: Lean 4.33 kernel (axioms per theorem audited on every run: 
            "is compared with the model's step (differential, so bounded by the generators; distribution in the evidence). "
            "Modelled, not verified: rustc, HashMap, generator-rs, encoding_rs, unicode-width/-normalization (parameters of the model).")
 
+TECH = "Lean 4 theorems over an executable model tied to the code by regenerated tables + per-run one-step correspondence; property predicate (the theorem's own definition) replayed on the implementation's transitions"
+
 CLAIMS = {
     "C05": dict(
         text="Theorem C05.C05_holds: for every well-formed model state, every one of the fourteen movement operations and every parameter "
@@ -20,8 +22,34 @@ CLAIMS = {
              "regenerated constants. The same executable predicate (propC05) is evaluated on every movement transition of the real crate "
              "(exhaustive geometry<=3x3 (quick) / <=6x6 (thorough) x region x DECOM x cursor x op x parameter set, via API and via CSI), "
              "together with one-step correspondence with the model.",
-        technique="Lean 4 theorem over an executable model (closed forms + frame, by case analysis and omega) + differential tie + predicate replay on the implementation",
-        design="7 (C05)"),
+        technique=TECH, design="7 (C05)"),
+    "C06": dict(
+        text="Theorem C06.C06_holds: for every well-formed state and every count/argument, index/linefeed/reverse index/IL/DL/DECSTBM produce exactly the "
+             "documented grid (rows of the region shifted by min(n, rows available) with cells intact, vacated rows blank, rows outside untouched), cursor and "
+             "margins (C06.expect, written from the statement: guard top<=y<=bottom, acceptance iff the clamped region spans two rows, homing, CSI r clears), "
+             "and nothing else changes. propC06 is evaluated on the crate's transitions.",
+        technique=TECH, design="7 (C06)"),
+    "C07": dict(
+        text="Theorem C07.C07_holds: ED 0/1/2/3, EL 0/1/2 and ECH n blank exactly the documented region (C07.region, incl. the pending-wrap column and unsupported "
+             "selectors = empty region) with spaces carrying the cursor's rendition, every other cell, the cursor and all settings unchanged; "
+             "region_ignores_margins: margins/DECOM do not occur in the region. propC07 is evaluated on the crate's transitions.",
+        technique=TECH, design="7 (C07)"),
+    "C09": dict(
+        text="Theorems C09.init_wellformed / step_wellformed / reachable_wellformed: the invariant Inv (cursor bounds, margins, dirty rows, nothing stored outside the grid, "
+             "legal saved width) holds for a new screen and is preserved by every one of the 43 operations incl. draw (any Unicode width function), resize and DECCOLM, hence for "
+             "every reachable state by induction over the history; display() has exactly `lines` rows. The executable form (Dump.illFormed, incl. the colour-name clause) is "
+             "evaluated on every state dumped from the real crate in this run.",
+        technique=TECH, design="7 (C09)",
+        note="The colour clause (fg/bg is a documented name or hex string) is checked on the implementation's dumped states; its Lean proof is not yet part of Inv."),
+    "C13": dict(
+        text="Theorem C13.C13_holds: ICH/DCH splice exactly min(n, columns-x) cells in the cursor row (absent/0 = 1), shifted cells travel whole (text + attributes), every other row, "
+             "the cursor and settings unchanged; ich_then_dch: cells pushed across the edge do not come back; nothing_hidden: nothing is stored outside the grid afterwards. "
+             "propC13 is evaluated on the crate's transitions, and the dumped buffers are checked for keys outside the grid.",
+        technique=TECH, design="7 (C13)"),
+    "C18": dict(
+        text="Theorems C18.tabs_initial/tabs_after_reset (stops at 8,16,..<columns), hts/tbc_* (set algebra, other selectors no-op), ht (nearest stop strictly right, "
+             "else last column, never beyond, nothing else changes) and C18_holds for the executable predicate, for every width and stop set. propC18 is evaluated on the crate's transitions.",
+        technique=TECH, design="7 (C18)"),
 }
 
 NOT_YET = "check under construction in this round; not yet claimed"
